@@ -125,7 +125,23 @@ def o_refused(a):
     except SystemExit:
         refused = True
     expected = any(p < 0 or p > 1 for p in a['degrees'])
-    return refused == expected, dict(refused=refused, expected=expected)
+    ok = refused == expected
+    obs = dict(refused=refused, expected=expected)
+    if a.get('stokes'):
+        # the same refusal when the unphysical degree enters as Stokes parameters (q, u maps, tables): q² + u² > 1 must reach the sampler as
+        # a degree above 1 and be refused there, not be clipped on the way
+        from ixpeobssim.core.stokes import xModelStokesParameters as S
+        q, u = numpy.array([x[0] for x in a['stokes']], dtype=float), numpy.array([x[1] for x in a['stokes']], dtype=float)
+        pd, pa = S.polarization_degree(q, u), S.polarization_angle(q, u)
+        exp2 = bool((q * q + u * u > 1.).any())
+        try:
+            modf.rvs_phi(numpy.full(len(q), 3.), pd, pa)
+            ref2 = False
+        except SystemExit:
+            ref2 = True
+        obs.update(stokes_refused=ref2, stokes_expected=exp2, degrees_from_stokes=[float(x) for x in pd])
+        ok = ok and ref2 == exp2
+    return ok, obs
 
 
 ORACLES = dict(roundtrip=o_roundtrip, harmonic=o_harmonic, component=o_component, fields=o_fields, pl=o_pl, broadband=o_broadband, refused=o_refused)
@@ -186,7 +202,10 @@ def explore(chk, budget=1):
             degs[int(g.integers(0, 5))] = float(g.choice([1.0000001, 1.5, -1e-9, -0.2, 10.]))
         elif r < 0.5:
             degs[0], degs[1] = 0., 1.
-        run_oracle(chk, 'refused', dict(degrees=degs))
+        st = [(float(r_ * math.cos(t_)), float(r_ * math.sin(t_))) for r_, t_ in zip(g.uniform(0, 1, 4), g.uniform(0, 6.28, 4))]
+        if g.uniform() < 0.5:
+            st[int(g.integers(0, 4))] = [(0.8, 0.8), (1.0000001, 0.), (-0.9, 0.6), (0., -1.2)][int(g.integers(0, 4))]
+        run_oracle(chk, 'refused', dict(degrees=degs, stokes=st))
     idx = [1., 2., 0., 3., 1.5, 2.5] + [float(x) for x in numpy.round(g.uniform(-1, 4, 4), 3)]
     run_oracle(chk, 'pl', dict(flux=float(g.uniform(0.1, 10)), eflux=float(10 ** g.uniform(-12, -9)), indices=idx,
                                ranges=[(2., 8.), (float(g.uniform(0.5, 2)), float(g.uniform(4, 12)))]))
